@@ -119,6 +119,12 @@ func Corpus() []opsim.Scenario {
 		{Cfg: cfg, Acts: []opsim.Action{{Kind: "Boot"}, {Kind: "Tick", C: 1}, {Kind: "Tick", C: 2}, {Kind: "FinishWait", Q: 1, Short: true}, {Kind: "Stop"}, {Kind: "Elapse", Q: 1}, {Kind: "Finish", Q: 2, Ok: true}}},
 		// a short delay that ends by itself, then stop inside the retried execution
 		{Cfg: cfg, Acts: []opsim.Action{{Kind: "Boot"}, {Kind: "Tick", C: 1}, {Kind: "FinishWait", Q: 1, Short: true}, {Kind: "Elapse", Q: 1}, {Kind: "Stop"}, {Kind: "Finish", Q: 1, Ok: true}}},
+		// stop while queue 1 waits in a long delay that has just been cancelled (CancelTaskDelay) and whose worker has
+		// not looked yet: the worker finds the stop request and the cancellation together and must start nothing
+		{Cfg: cfg, Acts: []opsim.Action{{Kind: "Boot"}, {Kind: "Tick", C: 1}, {Kind: "Tick", C: 1}, {Kind: "FinishWait", Q: 1, Slow: true}, {Kind: "Stop", Cancel: true, Q: 1}, {Kind: "Tick", C: 1}}},
+		{Cfg: cfg, Acts: []opsim.Action{{Kind: "Boot"}, {Kind: "Tick", C: 2}, {Kind: "Tick", C: 1}, {Kind: "FinishWait", Q: 2, Slow: true}, {Kind: "Tick", C: 2}, {Kind: "Stop", Cancel: true, Q: 2}, {Kind: "Finish", Q: 1, Ok: true}, {Kind: "Tick", C: 2}}},
+		// a Slow delay ended in the ordinary way, then stop inside the retried execution
+		{Cfg: cfg, Acts: []opsim.Action{{Kind: "Boot"}, {Kind: "Tick", C: 1}, {Kind: "FinishWait", Q: 1, Slow: true}, {Kind: "Elapse", Q: 1}, {Kind: "Stop"}, {Kind: "Finish", Q: 1, Ok: true}}},
 		// Shutdown() before Start(): the queues created afterwards must not run anything
 		{Cfg: []opsim.Hook{{Id: 1, Startup: new(int), Sched: []opsim.SB{{Name: 1, Queue: 1, Cron: 1}}}},
 			Acts: []opsim.Action{{Kind: "Stop"}, {Kind: "Boot"}, {Kind: "Tick", C: 1}, {Kind: "Finish", Q: 0, Ok: true}}},
@@ -177,7 +183,7 @@ func Gen(r *core.Rng, tier string) ([]core.In[Input], bool) {
 
 var Driver = core.Driver[Input, Obs]{
 	Spec: core.Spec{Property: "C17", Imports: []string{"Op_Model", "Op_Corr", "C17_Spec", "C17_Locks", "C17_Corr"}, Corr: "C17_Corr", ShrinkKey: "acts",
-		Rule: "operator-level scenarios (see C03) in which Shutdown() is requested at a random step (9% per step) and up to 10 further ticks / kube events / ends of open executions follow; 60% of the failing executions put their queue into a positive back-off delay (a long one, ended by the harness, or - 35% - one shorter than the wait loop's check interval, followed at once by Shutdown or by its natural end), so Shutdown also lands while workers wait in a back-off delay; stream long-idle: Shutdown after the operator has been left alone for 31 s of real time (thorough: also 35, 45, 65 s, with an execution open / a queue in its back-off delay meanwhile), time passing being a stutter step of the model (C17_time_is_stutter); class hang: Shutdown() requested while the main worker is inside an EnableKubernetesBindings handler whose LIST does not return (a reactor on the fake cluster), 1-3 other queues with open executions, queued tasks and ticks arriving afterwards - Shutdown must return, the other workers stop, nothing starts; every such case carries the lock program translated from the current source (the functions taking mgr.m and tqs.m, go/ast) on which Coq evaluates lock_ok (C17_blocked_threads_hold_no_lock); non-trivial = >=4 actions of >=2 kinds with >=2 executions; distinct = distinct (config, action list)"},
+		Rule: "operator-level scenarios (see C03) in which Shutdown() is requested at a random step (9% per step) and up to 10 further ticks / kube events / ends of open executions follow; 60% of the failing executions put their queue into a positive back-off delay (a long one, ended by the harness, or - 35% - one shorter than the wait loop's check interval, followed at once by Shutdown or by its natural end), so Shutdown also lands while workers wait in a back-off delay; 30% of the long delays are waited for with a 300 ms check interval and Shutdown then arrives, in 35% of the steps, together with a CancelTaskDelay() the worker has not seen yet (placed 60-120 ms after one of its looks; to the model a plain Stop); stream long-idle: Shutdown after the operator has been left alone for 31 s of real time (thorough: also 35, 45, 65 s, with an execution open / a queue in its back-off delay meanwhile), time passing being a stutter step of the model (C17_time_is_stutter); class hang: Shutdown() requested while the main worker is inside an EnableKubernetesBindings handler whose LIST does not return (a reactor on the fake cluster), 1-3 other queues with open executions, queued tasks and ticks arriving afterwards - Shutdown must return, the other workers stop, nothing starts; every such case carries the lock program translated from the current source (the functions taking mgr.m and tqs.m, go/ast) on which Coq evaluates lock_ok (C17_blocked_threads_hold_no_lock); non-trivial = >=4 actions of >=2 kinds with >=2 executions; distinct = distinct (config, action list)"},
 	Gen:      Gen,
 	Run:      Run,
 	Render:   Render,
